@@ -28,12 +28,6 @@ pub fn is_f3(zero_frames: bool, err: &str) -> bool {
 	zero_frames && err.contains("missing frames")
 }
 
-/// F10 (provisional id, opt-in like the others): arrow2 0.17 slices `&scratch[8..]` of a compressed buffer without
-/// checking that the (truncated) message body holds those 8 bytes, so the reader panics instead of returning Err.
-pub fn is_f10(compressed: bool, panic: &str) -> bool {
-	compressed && panic.contains("range start index 8 out of range for slice of length")
-}
-
 fn v(label: &str, msg: String) -> Outcome {
 	Violated { extra: label.to_string(), msg: format!("[{}] {}", label, msg) }
 }
@@ -543,7 +537,6 @@ pub fn c07s(spec: &Spec, p: &Progress, only: Option<&str>) -> Outcome {
 					Ok(Err(e)) => return v(&label, format!("the first {} of {} bytes were read as a game that cannot be written as .slp: {}", n, out.len(), e)),
 					Err(pn) => return v(&label, format!("the first {} of {} bytes were read as a game whose .slp serialisation panics: {}", n, out.len(), pn)),
 				},
-				Err(pn) if is_f10(comp.is_some(), &pn) && known("F10") => {}
 				Err(pn) => return v(&label, format!("the .slpp reader panicked on the first {} of {} bytes: {}", n, out.len(), pn)),
 			}
 		}
@@ -617,4 +610,50 @@ pub fn c10s(spec: &Spec, p: &Progress, only: Option<&str>) -> Outcome {
 		}
 	}
 	no_such(only, ran)
+}
+
+/// Diagnostic (`c07s-scan <case-id> <none|lz4|zstd>`): EVERY proper prefix of the archive, not the sampled set, classified;
+/// the prefix lengths on which the reader panics are listed as ranges.  No watchdog: meant for a reader known to return.
+pub fn c07s_scan(spec: &Spec, cname: &str) -> i32 {
+	std::panic::set_hook(Box::new(|_| {}));
+	let Some((_, comp)) = COMPS.iter().find(|c| c.0 == cname) else {
+		eprintln!("compression {:?} is not one of none, lz4, zstd", cname);
+		return 3;
+	};
+	let (bytes, _) = build(spec);
+	let Ok(game) = source(&bytes, false, false) else { return 3 };
+	let Some(reference) = reference(&game) else { return 3 };
+	let out = match slpp_write(cname, game, *comp, spec.v2()) {
+		Ok(Some(o)) => o,
+		_ => {
+			println!("c07s-scan: the archive cannot be written");
+			return 1;
+		}
+	};
+	if let Ok(entries) = tar_walk(&out) {
+		for e in &entries {
+			println!("entry {:16} data at {}..{}", e.name, e.data_off, e.data_off + e.data.len());
+		}
+	}
+	let (mut errs, mut full, mut other) = (0, 0, vec![]);
+	let mut panics: Vec<(usize, usize, String)> = vec![];
+	for n in 0..out.len() {
+		let o = pp::de::Opts { skip_frames: false };
+		match guard(|| pp::read(Cursor::new(&out[..n]), Some(&o)).map_err(|e| e.to_string())) {
+			Ok(Err(_)) => errs += 1,
+			Ok(Ok(g)) => match write_game(&g) {
+				Ok(Ok(again)) if again == reference => full += 1,
+				_ => other.push(n),
+			},
+			Err(pn) => match panics.last_mut() {
+				Some((_, hi, _)) if *hi + 1 == n => *hi = n,
+				_ => panics.push((n, n, pn)),
+			},
+		}
+	}
+	println!("c07s-scan {} {}: {} prefixes: {} rejected, {} read as the full game, {} read as another game {:?}, {} panic", spec.case_id(), cname, out.len(), errs, full, other.len(), &other[..other.len().min(8)], panics.iter().map(|p| p.1 - p.0 + 1).sum::<usize>());
+	for (lo, hi, text) in &panics {
+		println!("  panic on prefix lengths {}..={}: {}", lo, hi, text);
+	}
+	(!panics.is_empty() || !other.is_empty()) as i32
 }
